@@ -12,6 +12,7 @@ import (
 	"net/url"
 	"regexp"
 	"strings"
+	"unicode/utf8"
 
 	"github.com/trustbloc/sidetree-go/pkg/document"
 )
@@ -225,7 +226,8 @@ func validateServiceType(serviceType string) error {
 		return errors.New("service type is missing")
 	}
 
-	if len(serviceType) > maxServiceTypeLength {
+	// the limit is in characters, not in bytes of their UTF-8 encoding
+	if utf8.RuneCountInString(serviceType) > maxServiceTypeLength {
 		return fmt.Errorf("service type exceeds maximum length: %d", maxServiceTypeLength)
 	}
 
